@@ -96,7 +96,7 @@ def regex_job(prop, seed, n, sizes=(2, 9), byte_complete=False, dfs_share=0.2):
     return {"episodes": eps}
 
 
-def cfg_job(prop, seed, n, hand_share=0.2, byte_complete=False, dfs_share=0.2):
+def cfg_job(prop, seed, n, hand_share=0.2, byte_complete=False, dfs_share=0.2, ign_share=0.2):
     from . import cfggen
     rng = random.Random(f"{prop}-cfg-{seed}")
     eps = []
@@ -110,6 +110,13 @@ def cfg_job(prop, seed, n, hand_share=0.2, byte_complete=False, dfs_share=0.2):
             name = f"g{tries}"
             if not cfggen.is_reduced(g):
                 continue
+        if rng.random() < ign_share and not byte_complete:
+            # %ignore of a byte class that no terminal uses
+            used = set(cfggen.alphabet(g))
+            ign = [b for b in rng.choice([[32], [32, 10], [9, 32]]) if b not in used]
+            if ign:
+                g = dict(g, ign=ign)
+                name += ":ign"
         text = cfggen.lark_text(g)
         canonical = 1 if rng.random() < 0.3 else 0
         ab = sorted(set(cfggen.alphabet(g)) | {122})
